@@ -391,7 +391,7 @@ def explore_roundtrip(args):
     def subst(x):
         nonlocal lit_sym
         if isinstance(x, tuple):
-            if x[0] in ("str", "insens") and symlit and lit_sym is None and x[1]:
+            if x[0] in ("str", "insens") and symlit and lit_sym is None and x[1] and not isinstance(x[1], EscLit):
                 lit_sym = z3.BitVec("c0", 8)
                 return (x[0], [lit_sym] + list(x[1][1:]))
             return tuple(subst(y) for y in x)
@@ -405,6 +405,7 @@ def explore_roundtrip(args):
 
     def norm(x):
         if isinstance(x, tuple): return tuple(norm(y) for y in x)
+        if isinstance(x, EscLit): return list(x.value)
         if isinstance(x, (bytes, bytearray)): return list(x)
         return x
     want = norm(want)
@@ -435,6 +436,22 @@ def explore_roundtrip(args):
     return {"expr": str(e)[:200], "rows": rows, "want": str(want)[:300], "queries": ex.nqueries, "solver_s": ex.solver_time, "fns": fn_evidence(fns)}
 
 
+class EscLit(bytes):
+    """a literal's content as written (with escapes); `.value` is what it denotes"""
+    def __new__(cls, text, value):
+        o = bytes.__new__(cls, text); o.value = bytes(value); return o
+
+    def __reduce__(self): return (EscLit, (bytes(self), self.value))
+
+
+def escaped_atoms():
+    E = EscLit
+    return [("range", E(b"\\'", b"'"), b"~"), ("range", b"!", E(b"\\'", b"'")), ("range", E(b"\\x27", b"'"), E(b"\\u{7e}", b"~")), ("range", E(b"\\\\", b"\\"), b"z"), ("range", E(b'"', b'"'), b"z"),
+            ("range", E(b"\\n", b"\n"), E(b"\\r", b"\r")), ("range", E(b"\\u{e9}", "é".encode()), E("ü".encode(), "ü".encode())),
+            ("str", E(b'\\"', b'"')), ("str", E(b'\\"a\\"', b'"a"')), ("str", E(b"a\\nb\\tc", b"a\nb\tc")), ("str", E(b"\\u{e9}x", "éx".encode())), ("str", E(b"'", b"'")), ("str", E(b"\\'", b"'")), ("str", E(b"''", b"''")),
+            ("str", E(b"\\\\", b"\\")), ("str", E(b"\\x41\\x7e", b"A~")), ("str", E(b"\\0", b"\0")), ("insens", E(b"\\x41b", b"Ab")), ("insens", E(b'\\"', b'"')), ("str", E(b"\\u{1F600}", "\U0001F600".encode()))]
+
+
 def abstract_exprs(seed, count):
     rng = random.Random(seed)
     atoms = [("str", b"a"), ("str", b"ab"), ("insens", b"ab"), ("range", b"a", b"z"), ("ident", "b"), ("ident", "ANY"), ("peek_slice", 1, None), ("peek_slice", -2, 3), ("peek_slice", None, -1) if False else ("peek_slice", 0, 1),
@@ -455,7 +472,9 @@ def abstract_exprs(seed, count):
         if str(e) in seen: continue
         seen.add(str(e)); res.append(e)
     rng.shuffle(res)
-    return res[:count]
+    # literals written with escapes / delimiters as content are part of every run (alone and under one operator)
+    esc = escaped_atoms()
+    return esc + [("seq", x, ("ident", "b")) for x in esc[::3]] + res[:count]
 
 
 def run_roundtrip(ctx, P):
